@@ -36,3 +36,60 @@ partial def loop (h : IO.FS.Stream) (out : IO.FS.Stream) (f : Fam) (s : f.σ) : 
 def natList (l : List Nat) : String := "[" ++ ",".intercalate (l.map toString) ++ "]"
 
 end HsVerif.Drv
+
+namespace HsVerif.Drv
+
+def hexDigit (n : Nat) : Char := if n < 10 then Char.ofNat (48 + n) else Char.ofNat (87 + n)
+
+/-- lower-case hex of a byte list; "-" for the empty list -/
+def hexOfBytes (b : List Nat) : String :=
+  if b.isEmpty then "-" else String.ofList (b.flatMap fun x => [hexDigit ((x / 16) % 16), hexDigit (x % 16)])
+
+def hexVal (c : Char) : Option Nat :=
+  if '0' ≤ c ∧ c ≤ '9' then some (c.toNat - 48)
+  else if 'a' ≤ c ∧ c ≤ 'f' then some (c.toNat - 87)
+  else if 'A' ≤ c ∧ c ≤ 'F' then some (c.toNat - 55)
+  else none
+
+def bytesOfHexAux : List Char → Option (List Nat)
+  | [] => some []
+  | [_] => none
+  | a :: b :: rest => do
+    let x ← hexVal a
+    let y ← hexVal b
+    let r ← bytesOfHexAux rest
+    pure ((x * 16 + y) :: r)
+
+def bytesOfHex (s : String) : Option (List Nat) := if s == "-" then some [] else bytesOfHexAux s.toList
+
+end HsVerif.Drv
+
+namespace HsVerif.Drv
+
+def dropStr (n : Nat) (s : String) : String := String.ofList (s.toList.drop n)
+
+def splitCharAux (c : Char) : List Char → List Char → List String → List String
+  | [], cur, acc => (String.ofList cur.reverse :: acc).reverse
+  | x :: xs, cur, acc => if x == c then splitCharAux c xs [] (String.ofList cur.reverse :: acc) else splitCharAux c xs (x :: cur) acc
+
+def splitChar (c : Char) (s : String) : List String := splitCharAux c s.toList [] []
+
+/-- value of `key=value` among tokens -/
+def field (key : String) (toks : List String) : Option String :=
+  toks.findSome? fun t => if t.startsWith (key ++ "=") then some (dropStr (key.length + 1) t) else none
+
+def natField (key : String) (toks : List String) : Option Nat := (field key toks).bind (·.toNat?)
+
+/-- parse "[1,2,3]" -/
+def parseNatList (s : String) : Option (List Nat) :=
+  let cs := s.toList
+  if cs.length < 2 || cs.head? != some '[' || cs.getLast? != some ']' then none else
+  let inner := String.ofList ((cs.drop 1).dropLast)
+  if inner.isEmpty then some [] else (splitChar ',' inner).mapM (·.toNat?)
+
+/-- split tokens of an oracle line "<op ...> => <answer ...>" -/
+def splitArrow (toks : List String) : List String × List String :=
+  let (l, r) := toks.span (· ≠ "=>")
+  (l, r.drop 1)
+
+end HsVerif.Drv
